@@ -1,6 +1,8 @@
 package smtp
 
 import (
+	"net"
+
 	vrf "github.com/inbucket/inbucket/v3/pkg/zzvrf"
 )
 
@@ -68,4 +70,76 @@ func VerifC19Drain() {
 	vrf.Assert("message-in-progress-stored", len(mgr.calls) == 1)
 	vrf.Assert("message-in-progress-acknowledged", got250)
 	vrf.Assert("nothing-accepted-after-close", lis.Accepted == 1)
+}
+
+// VerifC19DrainN: the same with n connections accepted before shutdown is requested: each session
+// has its own pair of gates (held at its start / between DATA and the body, independently), Drain
+// returns only after all of them have ended, every message in progress is stored and acknowledged.
+func VerifC19DrainN(n int) {
+	vrf.ResetGates()
+	mgr := &vrfManager{}
+	srv := vrfServer(mgr, 5, true)
+	script := []string{"EHLO me", "MAIL FROM:<a@o.org>", "RCPT TO:<u1@d.org>", "DATA", "", "QUIT"}
+	var conns []*vrf.ScriptConn
+	acks := 0
+	for i := 0; i < n; i++ {
+		sc := vrf.NewScriptConn()
+		tag := string(rune('1' + i))
+		sc.OnRemoteAddr = func() { vrf.Gate("sessionStart" + tag) }
+		step := 0
+		sc.Next = func() vrf.Step {
+			if step == 5 && len(sc.Replies) > 0 {
+				r := sc.Replies[len(sc.Replies)-1]
+				if len(r) > 3 && r[:3] == "250" {
+					acks++
+				}
+			}
+			sc.Replies = nil
+			step++
+			if step > len(script) {
+				return vrf.Step{Kind: vrf.StepEOF}
+			}
+			if step == 5 {
+				vrf.Gate("midData" + tag)
+				return vrf.Step{Kind: vrf.StepBody, Body: vrfBody}
+			}
+			return vrf.Step{Kind: vrf.StepLine, Text: script[step-1]}
+		}
+		conns = append(conns, sc)
+	}
+	var nc []net.Conn
+	for _, c := range conns {
+		nc = append(nc, c)
+	}
+	lis := vrf.NewScriptListener(nc...)
+	srv.listener = lis
+	ctx := vrf.NewCancelCtx()
+	go srv.serve(ctx)
+	vrf.Quiesce()
+	ctx.Cancel()
+	lis.Close()
+	vrf.Quiesce()
+	go func() {
+		vrf.Quiesce()
+		for i := 0; i < n; i++ {
+			tag := string(rune('1' + i))
+			vrf.Open("sessionStart" + tag)
+			vrf.Open("midData" + tag)
+			vrf.Quiesce()
+		}
+	}()
+	srv.Drain()
+	allOver := true
+	for _, c := range conns {
+		if !c.Closed {
+			allOver = false
+		}
+	}
+	vrf.Cover("drain-returned-n")
+	vrf.Assert("drain-returns-only-after-all-sessions-ended", allOver)
+	vrf.Quiesce()
+	vrf.Quiesce()
+	vrf.Assert("every-message-in-progress-stored", len(mgr.calls) == n)
+	vrf.Assert("every-message-in-progress-acknowledged", acks == n)
+	vrf.Assert("nothing-accepted-after-close", lis.Accepted == n)
 }
